@@ -274,11 +274,28 @@ def gen_sources(tier):
         ("dep-file-bad-task", {"COND": 'run_command(name="t", run="true", deps=["//p:d"])\n',
                                "p/COND": 'run_command(name="d", run=5)\n'}, False),
         ("cond-is-directory", {"COND/x": "", "p/COND": ""}, False),
+        # the same relative include string used by COND files in different directories within one command
+        ("include-same-string-second-missing", {"COND": 'include("common.cond")\nrun_command(name="t", run="true", args=[X], deps=["//p:d"])\n',
+                                                "common.cond": "X = 1\n", "p/COND": 'include("common.cond")\nrun_command(name="d", run="true", args=[X])\n'}, False),
+        ("include-same-string-second-raises", {"COND": 'include("common.cond")\nrun_command(name="t", run="true", args=[X], deps=["//p:d"])\n',
+                                               "common.cond": "X = 1\n", "p/common.cond": "X = 1 / 0\n",
+                                               "p/COND": 'include("common.cond")\nrun_command(name="d", run="true", args=[X])\n'}, False),
+        ("include-same-string-second-defines-task", {"COND": 'include("common.cond")\nrun_command(name="t", run="true", args=[X], deps=["//p:d"])\n',
+                                                     "common.cond": "X = 1\n", "p/common.cond": 'X = 2\nrun_command(name="z", run="true")\n',
+                                                     "p/COND": 'include("common.cond")\nrun_command(name="d", run="true", args=[X])\n'}, False),
+        ("include-same-string-first-bad", {"COND": 'run_command(name="t", run="true", deps=["//p:d"])\n',
+                                           "p/COND": 'include("common.cond")\nrun_command(name="d", run="true", args=[X], deps=["//q:e"])\n',
+                                           "p/common.cond": "X = 2\n", "q/COND": 'include("common.cond")\nrun_command(name="e", run="true", args=[X])\n',
+                                           "q/common.cond": "X = (\n"}, False),
+        ("include-same-string-both-good", {"COND": 'include("common.cond")\nrun_command(name="t", run="./t.sh", args=[X], deps=["//p:d"])\n',
+                                           "common.cond": "X = 1\n", "p/common.cond": "X = 2\n",
+                                           "p/COND": 'include("common.cond")\nrun_command(name="d", run="./d.sh", args=[X])\n'}, True),
     ]
     for tag, files, expect in specials:
         files = dict(files)
         yield {"tag": "special:" + tag, "files": files, "target": "//:t", "expect": expect, "nontrivial": True,
-               "outside": tag == "include-outside"}
+               "outside": tag == "include-outside",
+               "spawn_argv": {"//:t": "./t.sh 1 ", "//p:d": "./d.sh 2 "} if tag == "include-same-string-both-good" else None}
 
 
 def warmup():
@@ -306,7 +323,7 @@ def run_one(case, found, res):
             outdirs += [x for x in dirs if ".task" in x]
         art = {"files": {k: (v if isinstance(v, str) else v.decode("latin-1")) for k, v in files.items()},
                "bytes": [k for k, v in files.items() if isinstance(v, bytes)], "target": case["target"],
-               "expect": case["expect"], "tag": case["tag"], "outside": case.get("outside", False)}
+               "expect": case["expect"], "tag": case["tag"], "outside": case.get("outside", False), "spawn_argv": case.get("spawn_argv")}
 
         def viol(key, what):
             found.setdefault("%s:%s" % (key, case["tag"]), (what, art))
@@ -321,6 +338,10 @@ def run_one(case, found, res):
         if case["expect"]:
             if r.exit != 0:
                 viol("valid-rejected", "well-formed definition rejected: exit %r stderr %r source %r" % (r.exit, r.err_text[:300], files))
+            elif not flags and case.get("spawn_argv"):
+                got = {e[2]: e[3]["argv"][0] for e in spawns}
+                if got != case["spawn_argv"]:
+                    viol("wrong-definition-loaded", "accepted, but the tasks were defined as %r, expected %r (each COND file must see its own include)" % (got, case["spawn_argv"]))
         else:
             if r.exit == 0:
                 viol("invalid-accepted", "malformed definition accepted (exit 0) %s: %r" % (flags, files))
@@ -353,7 +374,7 @@ def run_item(item, tier):
 def replay(artefact):
     files = {k: (v.encode("latin-1") if k in artefact.get("bytes", []) else v) for k, v in artefact["files"].items()}
     case = {"files": files, "target": artefact["target"], "expect": artefact["expect"], "tag": artefact["tag"],
-            "outside": artefact.get("outside", False)}
+            "outside": artefact.get("outside", False), "spawn_argv": artefact.get("spawn_argv")}
     found = {}
     res = {"evals": 0}
     run_one(case, found, res)
